@@ -65,7 +65,7 @@ def main():
                 res["checks"][c] = {"rc": p.returncode, "verdict": {0: "held", 1: "violated", 2: "inconclusive"}.get(p.returncode, "?"),
                                     "first_violation": first[0].strip()[:400] if first else None}
             res["ran"] = "bin/seed_eval.py %s <agent output> %s  (scratch worktree of /repo HEAD in /dev/shm, PROV_SRC pointed at it)" % (pid, " ".join(checks))
-            dest = os.path.join(VERIF, "seeded", "%s-%s" % (pid, x))
+            dest = os.path.join(VERIF, "seeded", "%s-%s%s" % (pid, x, os.environ.get("SEED_TAG", "")))
             if res["confirmed"]:
                 os.makedirs(dest, exist_ok=True)
                 shutil.copy(patch, os.path.join(dest, "patch.diff"))
@@ -78,8 +78,8 @@ def main():
                     res["checks"] = oldchecks
                 json.dump(res, open(os.path.join(dest, "meta.json"), "w"), indent=1, ensure_ascii=False)
             killed = [c for c, v in res["checks"].items() if v["rc"] == 1]
-            print("%s-%s confirmed=%s baseline_ok=%s demo(with,without)=(%s,%s) killed_by=%s  | %s" % (
-                pid, x, res["confirmed"], res["baseline_ok"], d1.returncode, d0.returncode, killed or "NONE", (res["summary"] or "")[:110]))
+            print("%s-%s%s confirmed=%s baseline_ok=%s demo(with,without)=(%s,%s) killed_by=%s  | %s" % (
+                pid, x, os.environ.get("SEED_TAG", ""), res["confirmed"], res["baseline_ok"], d1.returncode, d0.returncode, killed or "NONE", (res["summary"] or "")[:110]))
         finally:
             sh(["git", "-C", "/repo", "worktree", "remove", "--force", copy])
             shutil.rmtree(copy, ignore_errors=True)
